@@ -6,11 +6,13 @@ import FV.Model.Alloc
     <mode> hist <eps.dist> <eps.area> <sqrt-answer> <ncells> cell* <nfixed> idx* <nops> op*
       cell = V x y w h <region|-> k (name val)* depth       (YAML vector)
            | O cx cy w h region fixed hard k (name val)* depth   (Rectangle object)
-      op   = R t levels | U | G | M t | A k name* | C k name*
+      op   = R t levels | U | G | M t | A k name* | C k name* | N | I i | L name | K k name* | F i | R0 t levels
 
   reply: segments joined by " ;; " — constructor result, then one segment per op
   (R/U/G: dump of the new allocation or `err:<Class>`, after which the history stops;
-   M: 0/1;  A: scalar;  C: two scalars).
+   M: 0/1;  A: scalar;  C: two scalars;  N: num_rectangles num_modules max_refinement_depth;
+   I: the i-th cell (Python indexing) or err;  L: `allocation_module`: k (index ratio)* or err:KeyError;  K: check_compatible 0/1;
+   F i: `allocations[i].rect.fixed = True` in place, reply = dump of the object;  R0: `refine` whose result is discarded: `-` or err).
 -/
 namespace FV.Drv
 open FV FV.Alloc
@@ -39,6 +41,12 @@ inductive HOp (α : Type) where
   | must (t : α)
   | areaL (ms : List String)
   | centerL (ms : List String)
+  | counts
+  | rectAt (i : Int)
+  | modAlloc (m : String)
+  | compat (names : List String)
+  | fix (i : Nat)
+  | refine0 (t : α) (l : Nat)
 
 def pHOp : P (HOp α) := do
   let k ← tok
@@ -49,6 +57,12 @@ def pHOp : P (HOp α) := do
   | "M" => do let t ← pSc; pure (.must t)
   | "A" => do let ms ← pList tok; pure (.areaL ms)
   | "C" => do let ms ← pList tok; pure (.centerL ms)
+  | "N" => pure .counts
+  | "F" => do let i ← pNat; pure (.fix i)
+  | "R0" => do let t ← pSc; let l ← pNat; pure (.refine0 t l)
+  | "I" => do let i ← pInt; pure (.rectAt i)
+  | "L" => do let m ← tok; pure (.modAlloc m)
+  | "K" => do let ms ← pList tok; pure (.compat ms)
   | _ => failure
 
 def showCell (c : Cell α) : String :=
@@ -79,6 +93,26 @@ def runHist (env : Env α) : List (HOp α) → Eps α → Allocation α → List
   | .centerL ms :: rest, st, a, acc =>
     let s := match a.centerList ms with | .ok (x, y) => s!"{sc x} {sc y}" | .error e => e.toStr
     runHist env rest st a (s :: acc)
+  | .fix i :: rest, st, a, acc =>
+    let a' := a.markFixed [i]
+    runHist env rest st a' (dump a' st :: acc)
+  | .refine0 t l :: rest, st, a, acc =>
+    -- `a.refine(t, l)` whose result is discarded (the object stays in use; the call may define nothing new: the
+    -- tolerances are defined since the constructor)
+    let s := match refine env st a t l with | .ok _ => "-" | .error e => e.toStr
+    runHist env rest st a (s :: acc)
+  | .counts :: rest, st, a, acc =>
+    let d := match a.maxRefinementDepth with | .ok d => toString d | .error e => e.toStr
+    runHist env rest st a (s!"{a.numRectangles} {a.numModules} {d}" :: acc)
+  | .rectAt i :: rest, st, a, acc =>
+    let s := match a.allocationRectangle i with | .ok c => showCell c | .error e => e.toStr
+    runHist env rest st a (s :: acc)
+  | .modAlloc m :: rest, st, a, acc =>
+    let s := match a.allocationModule m with
+      | .ok l => s!"{l.length}" ++ String.join (l.map fun p => s!" {p.1} {sc p.2}")
+      | .error e => e.toStr
+    runHist env rest st a (s :: acc)
+  | .compat ns :: rest, st, a, acc => runHist env rest st a (b01 (a.checkCompatible ns) :: acc)
   | .op o :: rest, st, a, acc =>
     if opSize st a o > 2500 then ("skip:too-big" :: acc).reverse else
     match applyOp env st a o with
